@@ -37,7 +37,9 @@ WIRING = {
     "k1": {("s_kick", "c_kick")},
 }
 FLIPPER_COILS = ["c_fd_main", "c_fd_hold", "c_fs", "c_fe"]
-GROUPS = {"flippers": ["f_dual", "f_single", "f_eos"], "autofire": ["a_sling", "a_pop", "a_to", "k1"]}
+GROUPS = {"flippers": ["f_dual", "f_single", "f_eos"], "autofire": ["a_sling", "a_pop", "a_to", "k1"],
+          # the EOS flipper with software repulse, driven through its physical button and end-of-stroke switches
+          "eos": ["f_eos"]}
 
 
 class RulesDriver(MachineDriver):
@@ -134,6 +136,10 @@ class RulesDriver(MachineDriver):
         for n in GROUPS[self.group]:
             out.append(["enable", n])
             out.append(["disable", n])
+        if self.group == "eos":
+            for sw in ("s_flip_e", "s_eos_e"):
+                out.append(["sw", sw, 0 if self.m.switches[sw].state else 1])
+            return out + [["start"], ["drain"]]
         if self.group == "flippers":
             for n in ("f_dual", "f_single"):
                 out.append(["flip", n])
@@ -156,6 +162,9 @@ class RulesDriver(MachineDriver):
             self.ref[op[1]] = False
             if op[1] == "a_to":
                 self.to_reenable_at = None
+        elif k == "sw":
+            m.switch_controller.process_switch(op[1], op[2], logical=True)
+            self.stat("physical_flipper_switch_changes")
         elif k == "flip":
             m.events.post("%s_flip" % op[1])
             self.stat("sw_flips")
@@ -252,7 +261,21 @@ class RulesDriver(MachineDriver):
                 tuple(sorted(self.coil_on.items())), tuple(getattr(d, "_sw_flipped", None) for d in self.devs.values()),
                 tuple(sorted(self.installed.items())), self.rel_timers(), self.modes_fp(), self.m.playfield.balls,
                 len([t for t in self.all_devs["a_to"]._timeout_hits if t > self.loop.time() - 1.0]), self.task_fp(),
-                tuple(simple_state(d, now=self.loop.time()) for _, d in sorted(self.all_devs.items())))
+                tuple(simple_state(d, now=self.loop.time()) for _, d in sorted(self.all_devs.items())),
+                tuple((n, self.m.switches[n].state, r6(min(self.loop.time() - self.m.switches[n].last_change, 1.0)))
+                      for n in ("s_flip_e", "s_eos_e")),
+                # software rule handlers (EOS repulse) keep their own flags and switch handlers
+                tuple(sorted((str(k), simple_state(v, exclude=("_handlers",), now=self.loop.time()), len(getattr(v, "_handlers", ())))
+                             for k, v in self._software_handlers())))
+
+    def _software_handlers(self):
+        out = []
+        for d in self.all_devs.values():
+            for r in getattr(d, "_active_rules", []) or []:
+                h = getattr(r, "software_rule_handler", None)
+                if h is not None:
+                    out.append((id(h) and type(h).__name__, h))
+        return out
 
     def observe(self):
         return {"rules": sorted(self.rule_table()), "enabled": sorted(n for n, d in self.all_devs.items() if d._enabled),
@@ -269,7 +292,7 @@ def make(group):
 
 def body(ctx):
     quick = ctx.tier == "quick"
-    groups = ["flippers", "autofire"]
+    groups = ["flippers", "autofire", "eos"]
     res = bfs([make(g) for g in groups], 6 if quick else 7, observe=True)
     for s in res.samples[:3]:
         ctx.sample(s)
